@@ -895,7 +895,9 @@ class Registry:
         env.update(self.bind_call(factory, args, kwargs, f'{module.name}:{getattr(site, "lineno", "?")}',
                                   skip=len(env)))
         inner = None
-        for st in factory.node.body:
+        work = list(factory.node.body)
+        while work:
+            st = work.pop(0)
             if isinstance(st, ast.FunctionDef):
                 inner = st
             elif isinstance(st, (ast.Assert, ast.Pass)):
@@ -921,6 +923,12 @@ class Registry:
                         raise AnalysisError(f'{factory.fq}: condition of `{ast.unparse(st)[:60]}` not decided by the factory arguments')
                     v = v.body if t else v.orelse
                 env[st.targets[0].id] = self.ev(v, env, factory.module, factory)
+            elif isinstance(st, ast.If):
+                # a choice made from the factory's arguments (`if nullsafe: base = A else: base = B`): the branch taken is run
+                t = self.truth(st.test, env, factory.module, factory)
+                if t is None:
+                    raise AnalysisError(f'{factory.fq}: condition `{ast.unparse(st.test)[:60]}` not decided by the factory arguments')
+                work[0:0] = list(st.body if t else st.orelse)
             else:
                 raise AnalysisError(f'{factory.fq}: unsupported statement in decorator factory: {ast.unparse(st)[:60]}')
         if inner is None:
